@@ -3,7 +3,7 @@ import FalconModel.MediaType
 /-! C11: the concrete resolution rule of `falcon.media.Handlers._create_resolver.resolve`, as an instance of the abstract
     `f` of `Handlers.lean`.  The memo key of the real resolver is `(media_type, default, raise_not_found)`; here it is the
     string `media_type ++ "\x00" ++ default ++ "\x00" ++ ("1" | "0")` (`media_type = None` is the empty string). -/
-namespace Hd
+namespace Mh
 
 def splitKey (key : String) : String × String × String :=
   match key.splitOn "\x00" with
@@ -45,4 +45,4 @@ def ruleUnsupported (d : Data) (key : String) : Bool :=
     | .error .unsupported => true
     | _ => false
 
-end Hd
+end Mh
